@@ -95,7 +95,10 @@ pub fn absorb(out: &mut Outcome, prop: &str, sc_cfg: &Config, ops: &[Op], t: &Tr
     for s in &t.steps {
         let op = &ops[s.op.min(ops.len().saturating_sub(1))];
         match (&s.res, op) {
-            (StepRes::Proc { n_out, .. }, Op::Process { path, valid, slack_in, slack_out, slices }) => {
+            (StepRes::Proc { n_out, .. }, Op::Process { path, valid, slack_in, slack_out, slices, ragged }) => {
+                if *ragged != 0 {
+                    out.cov.fault("F11_ragged_channel_lengths", 1);
+                }
                 out.cov.calls += 1;
                 if valid.is_some() {
                     out.cov.fault("F2_eof_partial", 1);
@@ -192,7 +195,7 @@ pub fn shape_of(sc: &Scenario) -> u64 {
         fold(&mut h, op.kind_code() as u64);
     }
     match &sc.twin {
-        Twin::Threads { threads, instances, schedule } => {
+        Twin::Threads { threads, instances, schedule, .. } => {
             fold(&mut h, *threads as u64);
             for i in instances {
                 fold(&mut h, i.config.kind as u64 ^ ((i.home as u64) << 8) ^ ((i.ops.len() as u64) << 16));
@@ -263,10 +266,34 @@ fn base_scenario(prop: &str, seed: u64) -> (Rng, Scenario) {
 /// C03 / C04 / C09 share the "any valid history" workload.
 fn gen_valid_history(prop: &str, seed: u64, tier: Tier) -> Scenario {
     let (mut rng, mut sc) = base_scenario(prop, seed);
-    let dom = Dom::default();
+    let mut dom = Dom { custom_kernels: true, zero_channels: true, ..Dom::default() };
+    // swarm: a few percent of the runs leave the usual size range (large chunk, many channels) or run long
+    let big = rng.chance(0.03);
+    let long = !big && rng.chance(0.04);
+    if big {
+        dom.max_chunk = 65_536;
+        dom.max_channels = 8;
+    }
+    if long {
+        dom.max_chunk = 64;
+        dom.max_sinc_len = 32;
+        dom.max_channels = 2;
+    }
     sc.config = gen_config(&mut rng, &dom);
+    if big && rng.chance(0.5) {
+        sc.config.chunk = rng.log_usize(4097, 65_536);
+        sc.config.sub_chunks = *rng.pick(&[1usize, 2, 8, 64]);
+    }
+    if big && rng.chance(0.3) {
+        sc.config.channels = rng.usize_in(9, 24);
+        if let Some(m) = &mut sc.config.mask {
+            m.resize(sc.config.channels, true);
+        }
+    }
     sc.signal = gen_signal(&mut rng);
-    let n = ops_budget(&sc.config, tier_budget(tier), 8, if tier == Tier::Quick { 60 } else { 200 }, &mut rng);
+    let hi = if long { if tier == Tier::Quick { 1500 } else { 4000 } } else if tier == Tier::Quick { 60 } else { 200 };
+    let budget = tier_budget(tier) * if long || big { 4.0 } else { 1.0 };
+    let n = ops_budget(&sc.config, budget, 8, hi, &mut rng);
     let mix_ = OpMix::swarm(&mut rng, n);
     let (p, mut ops, t) = gen_history(&mut rng, &sc.config, &mix_);
     // a third of the runs: the caller changes its mask mid-stream; C09 also sees rejected calls
